@@ -37,6 +37,8 @@ enum R {
     Stream(Vec<Ev>, Term),
     CutMidEvent(Vec<Ev>, usize), // last event cut after k bytes, then close
     Http(u16),
+    /// non-200 with a body from the adversarial body alphabet (see `error_body`)
+    HttpBody(u16, u8),
     Empty,
 }
 
@@ -69,7 +71,20 @@ fn resp_of(r: &R, n: usize) -> Resp {
             Resp::Sse { chunks: vec![full[..keep].to_vec()], abort: false }
         }
         R::Http(s) => Resp::Http { status: *s, body: "scripted error".into() },
+        R::HttpBody(s, k) => Resp::Http { status: *s, body: error_body(*k) },
         R::Empty => Resp::Empty,
+    }
+}
+
+/// Error bodies: empty; long ASCII; and multi-byte text shifted by 0..3 ASCII bytes, so that
+/// whatever byte offset the code under test cuts, clips or slices at, one body has no character
+/// boundary there.
+fn error_body(kind: u8) -> String {
+    match kind {
+        0 => String::new(),
+        1 => "e".repeat(70 * 1024),
+        2 => format!("{{\"error\":{{\"message\":\"{}\"}}}}", "\u{e9}".repeat(1500)),
+        k => format!("{}{}", "x".repeat((k - 3) as usize), "\u{1F600}".repeat(700)),
     }
 }
 
@@ -113,6 +128,10 @@ fn scripts(tier: Tier) -> Vec<Vec<R>> {
     }
     firsts.push(R::Http(500));
     firsts.push(R::Http(401));
+    for k in 0..=6u8 {
+        firsts.push(R::HttpBody(500, k));
+    }
+    firsts.push(R::HttpBody(429, 4));
     firsts.push(R::Empty);
     let seconds = vec![
         R::Stream(vec![Ev::Text], Term::Done),
@@ -257,7 +276,7 @@ pub fn run(opts: Opts) -> i32 {
     report.set_rule(
         "provider scripts: first response = every sequence of <=2 (quick) / <=3 (thorough) events from {text delta, response.completed with id, \
          function call to write / unknown tool / invalid arguments, malformed JSON, schema-invalid event} x {[DONE], close without [DONE], \
-         connection abort}, plus a cut inside the last event at every 7th (quick) / every (thorough) byte, HTTP 500/401, empty 200 body; a \
+         connection abort}, plus a cut inside the last event at every 7th (quick) / every (thorough) byte, HTTP 500/401 with a short body, HTTP 500 with an adversarial body (empty, 70 KiB, multi-byte text shifted by 0..3 bytes), empty 200 body; a \
          second response from 6 variants whenever the first carried a call (a third if the second calls again); both history modes for \
          scripts with calls; inputs: prompt / tool envelopes (ok, failing, 1 ms timeout, unknown tool) / checkpoint envelopes (create, bad \
          path, unknown rewind) with and without a provider; context-compile failure (2 ways); 6 pairs of parallel runs on one thread; each \
